@@ -523,8 +523,8 @@ func (inp Input) ABIType(pos int) (int, atype) {
 		}
 		base = tuple(fields...)
 	case strings.HasPrefix(inp.Type, "bytes"):
-		switch {
-		case strings.TrimSuffix(strings.TrimPrefix(inp.Type, "bytes"), "[") == "":
+		switch elem, _, _ := strings.Cut(inp.Type, "["); elem {
+		case "bytes":
 			base = dynamic()
 		default:
 			base = static()
